@@ -21,6 +21,7 @@ from __future__ import annotations
 import hashlib
 import json
 import os
+import pathlib
 import random
 import re
 import resource
@@ -61,6 +62,8 @@ def valid_project(seed):
                            "subroutine caller()\n!! doc\ninteger :: k\ncall setup()\ncall finish()\ncall init()\nk = helper_fn(1)\nend subroutine caller\n"
                            "integer function helper_fn(i)\n!! doc\ninteger, intent(in) :: i\nhelper_fn = i\nend function helper_fn\n"
                            "end module shared_names\n")
+    # read last, in a directory of its own: an INCLUDE of a header that is not there (reported, the line stays a statement of the file)
+    out["zz_other/solver_inc.f90"] = ("module solver_inc\n!! doc zc20b\nimplicit none\ninclude 'legacy_params.h'\ninteger :: own_of_solver\n!! doc\nend module solver_inc\n")
     return out, donors, lay
 
 
@@ -226,7 +229,8 @@ def observe_child(arg):
     table = ids = None
     registered = []
     try:
-        project, cap = observe.parse_and_correlate([root], cap=cap)
+        os.makedirs(os.path.join(root, "inc_generic"), exist_ok=True)
+        project, cap = observe.parse_and_correlate([root], settings_kw={"include": [pathlib.Path(root) / "inc_generic"]}, cap=cap)  # (an `include` search path is configured)
         registered = sorted(os.path.relpath(f.path, root) for f in project.files)
         table = observe.tree(project)
         ids = idents(project)
@@ -245,6 +249,11 @@ COMPANIONS = {
     "cyc_b.inc": "integer :: from_b\ninclude 'cyc_a.inc'\n",
     "cyc_self.inc": "integer :: again\ninclude 'cyc_self.inc'\n",
     "cyc_first.inc": "include 'cyc_first.inc'\ninteger :: never\n",
+    # a header that cannot be read to its end: it names a file that is nowhere / holds a byte that is no UTF-8 after 9 KiB of valid lines
+    "shared_bad_nested.inc": "integer :: from_shared\ninclude 'no_such_nested_file.inc'\ninteger :: after_nested\n",
+    "shared_bad_bytes.inc": ("".join(f"integer :: sb{k:04d}\n" for k in range(520)).encode() + b"integer :: caf\xe9\n"),
+    "aa_legacy/legacy_bad.inc": "integer :: lb\ninclude 'no_such_nested_file.inc'\n",
+    "aa_legacy/legacy_params.h": "integer, parameter :: legacy_only_parameter = 1\n!! doc of a parameter that only the legacy directory has\n",
 }
 
 
@@ -338,6 +347,10 @@ def variant(arg):
         for b in accepted:
             if b[2]:
                 viol.append({"kf": {"kind": "undecodable_file_documented", "class": b[1]}, "w": {**w0, "file": b[0]}})
+        twins = [b for b in bad if b[1].startswith("twin_")]
+        if twins and len({b[0] in r["registered"] for b in twins}) > 1:
+            viol.append({"kf": {"kind": "files_with_the_same_defect_treated_differently", "class": twins[0][1]},
+                         "w": {**w0, "skipped": [b[0] for b in twins if b[0] not in r["registered"]], "documented": [b[0] for b in twins if b[0] in r["registered"]], "diagnostics": r["diag_tail"]}})
         lost = [f for f in ref["registered"] if f not in r["registered"]]
         if lost:
             viol.append({"kf": {"kind": "valid_file_lost", "classes": classes}, "w": {**w0, "lost": lost, "diagnostics": r["diag_tail"]}})
@@ -463,6 +476,14 @@ def main():
             if ci % 7 == 3:
                 # in a sub-directory, under the base name of one of the valid files, read after (zz_) or before (aa_) it
                 tasks.append((s, r, [(f"{rng.choice(['zz_legacy', 'zz_legacy', 'aa_old'])}/{rng.choice(vnames)}", cls, must, frn, data)]))
+        # two files that include one header which cannot be read to its end (read before / after / around the valid files), and a file that is
+        # rejected because of its include while an include search path is configured
+        for hdr in ("shared_bad_nested.inc", "shared_bad_bytes.inc"):
+            for p1, p2 in (("a", "c"), ("c", "z"), ("y", "z")):
+                twin = [(f"{px}_twin{k}.f90", "twin_including_header_that_fails_midway", False, True,
+                         f"module twin_{px}{k}\n!! doc\ninteger :: own{k}\ninclude '{hdr}'\nend module twin_{px}{k}\n".encode()) for k, px in enumerate((p1, p2))]
+                tasks.append((s, r, twin))
+        tasks.append((s, r, [("aa_legacy/bad_inc_user.f90", "rejected_through_its_include", False, True, b"module legacy_user\n!! doc\ninclude 'legacy_bad.inc'\nend module legacy_user\n")]))
         for _ in range(len(cs) // 4):  # several broken files at once
             pick = rng.sample(range(len(cs)), rng.randint(2, 3))
             tasks.append((s, r, [(f"{rng.choice(prefixes)}_bad{ci}.f90", cs[ci][0], cs[ci][1], cs[ci][2], cs[ci][3]) for ci in pick]))
